@@ -7,7 +7,10 @@ CONSTANT Scope    \* "singles" | "pairs" | "triples" (pairs plus all triples of 
 VARIABLE fv
 Candidates == IF Scope = "singles" THEN Singles \cup Vary3("site", "cls", "ids") \cup Vary3("site", "cls", "imports")
               ELSE (IF Scope = "triples" THEN Triples({"prefix", "exp", "mult", "depth", "nmaps", "mapIds", "connId", "pairs", "reset", "imports", "ids"}) ELSE {}) \cup Pairs \cup Vary3("site", "cls", "ids") \cup Vary3("site", "cls", "imports") \cup Vary3("site", "cls", "reset") \cup Vary3("site", "cls", "mapIds") \cup Vary3("site", "cls", "connId")
-Init == fv \in {f \in Candidates : Sensible(f) /\ ~f.twin}   \* names are unique in C02's domain
+\* exponents / multipliers that are no numbers at all (only the API can set them): either the validator refuses the model or the
+\* document reads back the same
+NonFinite == {[FV0 EXCEPT !.exp = "inf"], [FV0 EXCEPT !.exp = "-inf"], [FV0 EXCEPT !.mult = "nan"], [FV0 EXCEPT !.mult = "inf"]}
+Init == fv \in {f \in Candidates : Sensible(f) /\ ~f.twin} \cup NonFinite   \* names are unique in C02's domain
 Next == UNCHANGED fv
 Spec == Init /\ [][Next]_fv
 Emit == EmitScenario([fv |-> fv, am |-> ModelOf(fv)])
